@@ -3,7 +3,7 @@
 use crate::fw::*;
 use linfa::dataset::Pr;
 use linfa::traits::Fit;
-use linfa::{Dataset, Float, ParamGuard, Platt};
+use linfa::{Dataset, Float, Platt};
 use linfa_svm::{Svm, SvmError, SvmParams};
 use ndarray::{Array1, Array2};
 
